@@ -11,6 +11,7 @@ import (
 	"fmt"
 	"math"
 	"os"
+	"runtime"
 	"sync/atomic"
 	"testing"
 	"time"
@@ -366,10 +367,57 @@ func TestVerifC02Race(t *testing.T) {
 			p.Fail()
 		}
 	}
+	avgRounds, avgMismatch := c02RaceAvg()
 	res := map[string]int64{"final": atomic.LoadInt64(&as.flying), "admitted": admitted, "resolved": resolved,
-		"shed": shed, "negative": negative, "idleShed": int64(idleShed)}
+		"shed": shed, "negative": negative, "idleShed": int64(idleShed), "avgRounds": avgRounds, "avgMismatch": avgMismatch}
 	b, _ := json.Marshal(res)
 	os.WriteFile(outp, append(b, '\n'), 0o644)
+}
+
+// Free-running monitor of "every resolution contributes exactly one sample to the moving average": a
+// contender goroutine keeps taking avgFlyingLock for short moments (what Allow's highThru and other
+// completions do) while, round after round, three requests are let in and two of them are resolved on two
+// goroutines at once.  After each round avgFlying must be bit-for-bit one of the two values the two samples
+// (the in-flight values their own decrements returned) give in either order.
+func c02RaceAvg() (rounds, mismatch int64) {
+	systemOverloadChecker = func(int64) bool { return false }
+	as := NewAdaptiveShedder(WithCpuThreshold(900)).(*adaptiveShedder)
+	var stop int32
+	contDone := make(chan struct{})
+	go func() {
+		defer close(contDone)
+		for atomic.LoadInt32(&stop) == 0 {
+			as.avgFlyingLock.Lock()
+			runtime.Gosched()
+			as.avgFlyingLock.Unlock()
+			runtime.Gosched()
+		}
+	}()
+	fold := func(avg float64, fl int64) float64 { return avg*flyingBeta + float64(fl)*(1-flyingBeta) }
+	prev := 0.0
+	for r := 0; r < 4000; r++ {
+		var ps [3]Promise
+		for i := range ps {
+			ps[i], _ = as.Allow()
+		}
+		f := atomic.LoadInt64(&as.flying)
+		d := make(chan struct{}, 2)
+		go func() { ps[0].Fail(); d <- struct{}{} }()
+		go func() { ps[1].Pass(); d <- struct{}{} }()
+		<-d
+		<-d
+		as.avgFlyingLock.Lock()
+		got := as.avgFlying
+		as.avgFlyingLock.Unlock()
+		if got != fold(fold(prev, f-1), f-2) && got != fold(fold(prev, f-2), f-1) {
+			mismatch++
+		}
+		prev = got
+		rounds++
+	}
+	atomic.StoreInt32(&stop, 1)
+	<-contDone
+	return rounds, mismatch
 }
 
 // ShedderGroup: GetShedder(key) for a sequence of keys, each followed by one Allow (CPU idle, so
